@@ -284,11 +284,68 @@ type t7rnd interface{ IntN(int) int }
 
 var t7keys = []string{"a", "b", "c", "d", "e"}
 
+// t7pool: raw Go values (containing []byte directly and nested) that the CALLER keeps for the whole case: the
+// same raw value is used for several from-raw ops and its bytes are scribbled on by the caller in between.
+// Value semantics: from-raw copies, so neither may ever show in a payload.
+var t7pool []any
+
+func t7newPool(r t7rnd) []any {
+	b := func() []byte { return []byte{byte(r.IntN(200)), byte(r.IntN(200)), byte(r.IntN(200))}[:1+r.IntN(3)] }
+	return []any{
+		b(),
+		map[string]any{"p": b(), "q": []any{b(), "x"}, "i": int64(r.IntN(50))},
+		[]any{b(), map[string]any{"r": b()}},
+	}
+}
+
+// t7refFromRaw: the node the reference expects for a value filled from raw (as raw reads NOW)
+func t7refFromRaw(raw any) *t7node {
+	switch tv := raw.(type) {
+	case []byte:
+		return &t7node{leaf: "bytes:" + hex.EncodeToString(tv)}
+	case string:
+		return &t7node{leaf: "Str:" + tv}
+	case int64:
+		return &t7node{leaf: fmt.Sprint("Int:", tv)}
+	case map[string]any:
+		mn := &t7node{leaf: "M", isMap: true}
+		for k, x := range tv {
+			c := t7refFromRaw(x)
+			c.key = k
+			mn.kids = append(mn.kids, c)
+		}
+		return &t7node{leaf: "map", kids: []*t7node{mn}}
+	case []any:
+		sn := &t7node{leaf: "S"}
+		for _, x := range tv {
+			sn.kids = append(sn.kids, t7refFromRaw(x))
+		}
+		return &t7node{leaf: "slice", kids: []*t7node{sn}}
+	}
+	return &t7node{leaf: "Empty:"}
+}
+
+// t7rawBytes: every []byte inside a raw value
+func t7rawBytes(raw any, out *[][]byte) {
+	switch tv := raw.(type) {
+	case []byte:
+		*out = append(*out, tv)
+	case map[string]any:
+		for _, x := range tv {
+			t7rawBytes(x, out)
+		}
+	case []any:
+		for _, x := range tv {
+			t7rawBytes(x, out)
+		}
+	}
+}
+
 // t7setVal applies a plain setter to a value and returns the node the REFERENCE expects afterwards,
 // computed from the drawn arguments alone (old = the reference node before; nil when filling).
 func t7setVal(r t7rnd, v pcommon.Value, old *t7node) (string, *t7node) {
 	intNode := func(x int) *t7node { return &t7node{leaf: fmt.Sprint("Int:", x)} }
-	switch r.IntN(9) {
+	switch r.IntN(12) {
 	case 0:
 		x := r.IntN(50)
 		v.SetStr(fmt.Sprint("s", x))
@@ -336,6 +393,46 @@ func t7setVal(r t7rnd, v pcommon.Value, old *t7node) (string, *t7node) {
 				leaf = old.leaf + hex.EncodeToString([]byte{b})
 			}
 			return "bytesappend", &t7node{leaf: leaf}
+		}
+		x := r.IntN(50)
+		v.SetInt(int64(x))
+		return "setint", intNode(x)
+	case 8, 9: // from-raw out of the caller-kept pool (the same raw input serves many values)
+		if len(t7pool) > 0 {
+			raw := t7pool[r.IntN(len(t7pool))]
+			_ = v.FromRaw(raw)
+			return "fromrawpool", t7refFromRaw(raw)
+		}
+		_ = v.FromRaw(nil)
+		return "fromrawnil", &t7node{leaf: "Empty:"}
+	case 10: // in-place byte edit: SetAt, or FromRaw / CopyTo of a length that fits the buffer
+		if v.Type() == pcommon.ValueTypeBytes && v.Bytes().Len() > 0 && old != nil {
+			cur, _ := hex.DecodeString(strings.TrimPrefix(old.leaf, "bytes:"))
+			if len(cur) == v.Bytes().Len() {
+				switch r.IntN(3) {
+				case 0:
+					i, x := r.IntN(len(cur)), byte(r.IntN(200))
+					v.Bytes().SetAt(i, x)
+					cur[i] = x
+					return "bytessetat", &t7node{leaf: "bytes:" + hex.EncodeToString(cur)}
+				case 1:
+					nb := make([]byte, len(cur))
+					for i := range nb {
+						nb[i] = byte(r.IntN(200))
+					}
+					v.Bytes().FromRaw(nb)
+					return "bytesfromrawfit", &t7node{leaf: "bytes:" + hex.EncodeToString(nb)}
+				default:
+					nb := make([]byte, len(cur))
+					for i := range nb {
+						nb[i] = byte(r.IntN(200))
+					}
+					o := pcommon.NewByteSlice()
+					o.FromRaw(nb)
+					o.CopyTo(v.Bytes())
+					return "bytescopytofit", &t7node{leaf: "bytes:" + hex.EncodeToString(nb)}
+				}
+			}
 		}
 		x := r.IntN(50)
 		v.SetInt(int64(x))
@@ -445,6 +542,17 @@ func (st *t7state) t7step(r t7rnd, stat map[string]int) (res t7result, ok bool) 
 		st.logs[t].MarkReadOnly()
 		st.ro[t] = true
 		return t7result{name: "markro"}, true
+	case choice < 8: // the caller scribbles on the raw input it kept: no payload may change
+		var bs [][]byte
+		for _, raw := range t7pool {
+			t7rawBytes(raw, &bs)
+		}
+		if len(bs) == 0 {
+			return res, false
+		}
+		b := bs[r.IntN(len(bs))]
+		b[r.IntN(len(b))] ^= byte(1 + r.IntN(200))
+		return t7result{name: "mutateraw"}, true
 	case choice < 38: // copy
 		y, found := pickY()
 		if !found {
@@ -659,6 +767,12 @@ func (st *t7state) t7step(r t7rnd, stat map[string]int) (res t7result, ok bool) 
 					exp.kids = nil
 					m.Clear()
 				case 1:
+					if pm, ok := t7pool[1].(map[string]any); ok && r.IntN(2) == 0 {
+						res.name = "map-fromrawpool"
+						exp.kids = t7refFromRaw(pm).kids[0].kids
+						_ = m.FromRaw(pm)
+						break
+					}
 					res.name = "map-fromraw"
 					v := r.IntN(50)
 					exp.kids = nil
@@ -725,6 +839,7 @@ func TestVerifC07Tree(t *testing.T) {
 		rnd := vRand(c)
 		out.Linef("case %d", c)
 		st := &t7state{}
+		t7pool = t7newPool(rnd)
 		h := 2 + rnd.IntN(2)
 		for i := 0; i < h; i++ {
 			ld := NewLogs()
@@ -738,6 +853,25 @@ func TestVerifC07Tree(t *testing.T) {
 		}
 		stat := map[string]int{}
 		length := 5 + rnd.IntN(40)
+		{ // the initial content (partly filled from the raw pool) must already be separated
+			seen := map[uintptr]string{}
+			var rawArrays [][]byte
+			for _, raw := range t7pool {
+				t7rawBytes(raw, &rawArrays)
+			}
+			for _, b := range rawArrays {
+				if cap(b) > 0 {
+					t7note(seen, &b[:1][0], "raw-input")
+				}
+			}
+			for i, ld := range st.logs {
+				if dup := t7identities(ld, fmt.Sprint("h", i), seen); dup != "" {
+					out.Linef("viol sig=C07/tree/initial-fromraw-fill-aliasing-created %s", dup)
+					length = 0
+					break
+				}
+			}
+		}
 		nt := false
 		var trace []string
 		for k := 0; k < length; k++ {
@@ -747,6 +881,9 @@ func TestVerifC07Tree(t *testing.T) {
 			}
 			trace = append(trace, res.name)
 			stat["op_"+strings.SplitN(res.name, "-", 2)[0]]++
+			if strings.Contains(res.name, "raw") || strings.Contains(res.name, "bytes") {
+				stat["n_"+res.name]++
+			}
 			if strings.HasPrefix(res.name, "copy") || strings.HasPrefix(res.name, "move") {
 				nt = true
 			}
@@ -791,6 +928,15 @@ func TestVerifC07Tree(t *testing.T) {
 				// direct separation oracle on the implementation: no element, one-of wrapper or backing array
 				// is reachable twice (also keeps a later op from recursing forever through aliased data)
 				seen := map[uintptr]string{}
+				var rawArrays [][]byte
+				for _, raw := range t7pool {
+					t7rawBytes(raw, &rawArrays)
+				}
+				for _, b := range rawArrays { // the caller's own arrays: no payload may hold one
+					if cap(b) > 0 {
+						t7note(seen, &b[:1][0], "raw-input")
+					}
+				}
 				for i, ld := range st.logs {
 					if dup := t7identities(ld, fmt.Sprint("h", i), seen); dup != "" {
 						bad = fmt.Sprintf("viol sig=C07/tree/%s-aliasing-created step=%d %s", res.name, k, dup)
@@ -866,7 +1012,12 @@ func t7idVal(av *otlpcommon.AnyValue, where string, seen map[uintptr]string, dep
 			}
 		}
 	case *otlpcommon.AnyValue_BytesValue:
-		return t7note(seen, w, where+":bytes")
+		if d := t7note(seen, w, where+":bytes"); d != "" {
+			return d
+		}
+		if cap(w.BytesValue) > 0 { // the byte array itself: shared by nobody, least of all a raw input
+			return t7note(seen, &w.BytesValue[:1][0], where+":byte[]")
+		}
 	}
 	return ""
 }
